@@ -70,7 +70,7 @@ pub async fn semantic_tokens(
             line: 0,
             character: 0,
         };
-        let semantic_tokens: Vec<SemanticToken> = ast
+        let mut semantic_tokens: Vec<SemanticToken> = ast
             .global_declarations
             .iter()
             .flat_map(|gd| {
@@ -85,6 +85,18 @@ pub async fn semantic_tokens(
                 }
             })
             .collect();
+        // the comments behind the last declaration belong to no declaration
+        let declarations_end = ast
+            .global_declarations
+            .last()
+            .map_or(0, |gd| gd.offset + gd.to_range().end);
+        semantic_tokens.extend(tokens[declarations_end..].iter().filter_map(|token| {
+            let semantic_token = map_token(token, previous_token_pos, &text);
+            if semantic_token.is_some() {
+                previous_token_pos = as_position(token.range.start, &text);
+            }
+            semantic_token
+        }));
         Ok(Some(SemanticTokens {
             result_id: None,
             data: semantic_tokens,
